@@ -349,6 +349,12 @@ fn trigger_set(from: &[KeyCode]) -> (Vec<KeyCode>, KeyCode) {
 }
 
 pub fn reference_expand(p: &Prog) -> Result<Expansion, String> {
+  let mut groups = expand_groups(p)?;
+  apply_repeat_only(p, &mut groups)
+}
+
+// one group per source item that produces mappings, before any repeat-only entry is applied
+pub fn expand_groups(p: &Prog) -> Result<Vec<Vec<Mapping>>, String> {
   let mut groups: Vec<Vec<Mapping>> = Vec::new();
   for it in &p.items {
     match it {
@@ -441,6 +447,11 @@ pub fn reference_expand(p: &Prog) -> Result<Expansion, String> {
       Item::RepeatOnly { .. } => {}
     }
   }
+  Ok(groups)
+}
+
+fn apply_repeat_only(p: &Prog, groups_in: &mut Vec<Vec<Mapping>>) -> Result<Expansion, String> {
+  let mut groups = std::mem::take(groups_in);
   // repeat-only entries: set the repeat mode of the mappings with the same trigger set, or add
   // an identity mapping if there is none
   let mut identities = Vec::new();
@@ -467,6 +478,112 @@ pub fn reference_expand(p: &Prog) -> Result<Expansion, String> {
     }
   }
   Ok(Expansion { groups, identities })
+}
+
+// The program with every shorthand written out by hand: every alias definition, single and row
+// mapping as the basic mappings of its expansion (plain keys only), every repeat-only entry as
+// one plain repeat-only entry per combination of alias definitions, all in source order. What a
+// repeat-only entry does to the mappings before it is left to the converter, which sees plain
+// entries only: whatever the rule for several entries on one trigger is, the shorthand program
+// and its written-out form must convert to the same mappings.
+fn repeat_json(r: &Repeat) -> Value {
+  match r {
+    Repeat::Normal => Value::String("Normal".into()),
+    Repeat::Disabled => Value::String("Disabled".into()),
+    Repeat::Special { keys, delay_ms, interval_ms } => json!({"Special": {"keys": keys.iter().map(|k| key_name(*k)).collect::<Vec<_>>(), "delay_ms": delay_ms, "interval_ms": interval_ms}}),
+  }
+}
+
+pub fn written_out(p: &Prog) -> Result<(Value, Vec<usize>), String> {
+  let groups = expand_groups(p)?;
+  let mut gi = 0;
+  let mut out: Vec<Value> = Vec::new();
+  let mut sizes: Vec<usize> = Vec::new();
+  for it in &p.items {
+    match it {
+      Item::RepeatOnly { mods, key, rep } => {
+        for combo in combinations(p, mods) {
+          let mut from = expand_trigger_mods(p, mods, &combo);
+          from.push(*key);
+          let repeat = srep_expand(p, mods, &combo, rep)?;
+          out.push(json!({"from": from.iter().map(|k| key_name(*k)).collect::<Vec<_>>(), "repeat": repeat_json(&repeat)}));
+        }
+      }
+      _ => {
+        for m in &groups[gi] {
+          let mut o = Map::new();
+          o.insert("from".into(), json!(m.from.iter().map(|k| key_name(*k)).collect::<Vec<_>>()));
+          o.insert("to".into(), json!(m.to.iter().map(|k| key_name(*k)).collect::<Vec<_>>()));
+          o.insert("repeat".into(), repeat_json(&m.repeat));
+          if !m.absorbing.is_empty() {
+            o.insert("absorbing".into(), json!(m.absorbing.iter().map(|k| key_name(*k)).collect::<Vec<_>>()));
+          }
+          out.push(Value::Object(o));
+        }
+        sizes.push(groups[gi].len());
+        gi += 1;
+      }
+    }
+  }
+  Ok((json!({ "mappings": out }), sizes))
+}
+
+// all expanded trigger sets of the repeat-only entries, and whether two entries share one
+pub fn repeat_only_sets(p: &Prog) -> (Vec<(Vec<KeyCode>, KeyCode)>, bool) {
+  let mut all: Vec<(Vec<KeyCode>, KeyCode)> = Vec::new();
+  let mut shared = false;
+  for it in &p.items {
+    if let Item::RepeatOnly { mods, key, .. } = it {
+      let sets = expanded_trigger_sets(&p.aliases, mods, *key);
+      if sets.iter().any(|s| all.contains(s)) {
+        shared = true;
+      }
+      all.extend(sets);
+    }
+  }
+  (all, shared)
+}
+
+// Two conversions of the same program (shorthand / written out): equal up to the order inside
+// one source item's expansion and the placement of the identity mappings of repeat-only entries.
+pub fn same_conversion(a: &[Mapping], b: &[Mapping], sizes: &[usize], ro_sets: &[(Vec<KeyCode>, KeyCode)]) -> bool {
+  if a.len() != b.len() {
+    return false;
+  }
+  let total: usize = sizes.iter().sum();
+  // identity mappings: trigger sets of repeat-only entries that no regular mapping has
+  let is_ident = |m: &Mapping| m.from == m.to && m.absorbing.is_empty() && ro_sets.contains(&trigger_set(&m.from));
+  let split = |v: &[Mapping]| -> Option<(Vec<Mapping>, Vec<Mapping>)> {
+    // (from the end: that many mappings beyond the regular ones are identities)
+    let extra = v.len().checked_sub(total)?;
+    let mut reg: Vec<Mapping> = v.to_vec();
+    let mut ids: Vec<Mapping> = Vec::new();
+    let mut i = reg.len();
+    while ids.len() < extra && i > 0 {
+      i -= 1;
+      if is_ident(&reg[i]) {
+        ids.push(reg.remove(i));
+      }
+    }
+    if ids.len() == extra { Some((reg, ids)) } else { None }
+  };
+  match (split(a), split(b)) {
+    (Some((ra, ia)), Some((rb, ib))) => {
+      if !multiset_eq(&ia, &ib) {
+        return false;
+      }
+      let mut pos = 0;
+      for n in sizes {
+        if !multiset_eq(&ra[pos..pos + n], &rb[pos..pos + n]) {
+          return false;
+        }
+        pos += n;
+      }
+      true
+    }
+    // the number of mappings does not fit the expansion (oracle 1 decides that): plain multiset
+    _ => multiset_eq(a, b),
+  }
 }
 
 fn has_dup(v: &[KeyCode]) -> bool {
@@ -636,7 +753,9 @@ pub fn gen_prog(src: &mut Src) -> Prog {
       items.push(Item::AliasDef(ai, di));
     }
   }
-  let n_src = src.range(1, 6);
+  let n_src = if src.chance(10) { src.range(6, 10) } else { src.range(1, 6) };
+  // several repeat-only entries on one trigger set: only compared with the written-out form
+  let allow_dup_ro = src.chance(40);
   let mut body: Vec<Item> = Vec::new();
   let mut repeat_only_triggers: Vec<(Vec<Mo>, KeyCode)> = Vec::new();
   let mut repeat_only_sets: Vec<(Vec<KeyCode>, KeyCode)> = Vec::new();
@@ -671,10 +790,28 @@ pub fn gen_prog(src: &mut Src) -> Prog {
     let absorbing: Vec<Mo> = if !mods.is_empty() && src.chance(30) { src.subset(&mods, 60) } else { vec![] };
     let kind = src.weighted(&[40, 42, 18]);
     // earlier single mappings of this program (for near-duplicates and targeted repeat-only entries)
-    let earlier: Vec<(Vec<Mo>, KeyCode)> = body.iter().filter_map(|it| if let Item::Single { mods, key, .. } = it { Some((mods.clone(), *key)) } else { None }).collect();
+    let mut earlier: Vec<(Vec<Mo>, KeyCode)> = body.iter().filter_map(|it| if let Item::Single { mods, key, .. } = it { Some((mods.clone(), *key)) } else { None }).collect();
+    if allow_dup_ro && kind == 2 {
+      earlier.extend(repeat_only_triggers.iter().cloned());
+    }
     let (mods, forced_key): (Vec<Mo>, Option<KeyCode>) = if !earlier.is_empty() && ((kind == 2 && src.chance(60)) || (kind == 0 && src.chance(15))) {
       let (mut m, k) = src.pick(&earlier);
-      match src.weighted(&[if kind == 2 { 50 } else { 0 }, 30, 20]) {
+      match src.weighted(&[if kind == 2 { 50 } else { 0 }, 30, 20, if kind == 2 { 35 } else { 0 }, if kind == 2 && allow_dup_ro { 35 } else { 0 }]) {
+        4 => {} // spelled exactly as before
+        3 => {
+          // an alias written out: replaced by the keys of one of its definitions
+          if let Some(pos) = m.iter().position(|x| matches!(x, Mo::Alias(_))) {
+            if let Mo::Alias(a) = m[pos].clone() {
+              let d = &aliases[a].defs[src.below(aliases[a].defs.len())];
+              m.remove(pos);
+              for (j, kk) in d.keys.iter().enumerate() {
+                if !m.contains(&Mo::Key(*kk)) && *kk != k {
+                  m.insert((pos + j).min(m.len()), Mo::Key(*kk));
+                }
+              }
+            }
+          }
+        }
         0 => src.shuffle(&mut m), // the same trigger set, modifiers possibly in another order
         1 => {
           // near-identical: one plain modifier replaced by another
@@ -759,7 +896,7 @@ pub fn gen_prog(src: &mut Src) -> Prog {
         // at most one repeat-only entry per expanded trigger set (two are order dependent and
         // undocumented)
         let sets = expanded_trigger_sets(&aliases, &mods, key);
-        if sets.iter().any(|s| repeat_only_sets.contains(s)) {
+        if !allow_dup_ro && sets.iter().any(|s| repeat_only_sets.contains(s)) {
           continue;
         }
         repeat_only_sets.extend(sets);
@@ -908,6 +1045,11 @@ pub fn run_case(c: &C13Case, stats: &mut Stats) -> Result<(), Violation> {
       stats.label("excluded:duplicate-key-in-expansion");
       return Ok(());
     }
+    (Ok(_), Ok(_)) if repeat_only_sets(&c.prog).1 => {
+      // several repeat-only entries reach one trigger set: which of them decides is not
+      // documented, so the reference expansion is not consulted; the written-out form below is
+      stats.label("several-repeat-only-entries-on-one-trigger");
+    }
     (Ok(e), Ok(l)) => {
       if !matches_expansion(&l.mappings, e) {
         let exp_text: Vec<String> = e.groups.iter().map(|g| format!("{{{}}}", g.iter().map(mapping_text).collect::<Vec<_>>().join(" | "))).collect();
@@ -928,6 +1070,28 @@ pub fn run_case(c: &C13Case, stats: &mut Stats) -> Result<(), Violation> {
     }
     (Err(_), Err(_)) => {
       stats.label("both-reject");
+    }
+  }
+  // written out by hand (programs with repeat-only entries)
+  if c.prog.items.iter().any(|it| matches!(it, Item::RepeatOnly { .. })) {
+    if let (Ok(l), Ok((wv, sizes))) = (&actual, written_out(&c.prog)) {
+      match load_value(&wv) {
+        Ok(w) => {
+          let (ro_sets, shared) = repeat_only_sets(&c.prog);
+          stats.label("written-out-form-compared");
+          if !same_conversion(&l.mappings, &w.mappings, &sizes, &ro_sets) {
+            return Err(Violation::new(
+              "written-out-form-differs",
+              format!("program {} converts to [{}] but the same program with every shorthand written out by hand, {}, converts to [{}]{}", c.json_a, layout_text(l), wv, layout_text(&w), if shared { " (several repeat-only entries reach one trigger set)" } else { "" }),
+            ));
+          }
+        }
+        Err(_) => {
+          // the shorthand form is accepted, the written-out form is not: left open (a loader may
+          // be stricter about plain entries, e.g. negative times)
+          stats.label("written-out-form-rejected(left-open)");
+        }
+      }
     }
   }
   // respelling
